@@ -201,6 +201,11 @@ def corpus():
     # and a failing pure insertion after a hunk that removed lines (line numbers of the empty side must survive)
     out.append(mk({b"f": F(body)}, b"--- a/f\n+++ b/f\n@@ -1,0 +2,2 @@\n+n1\n+n2\n@@ -5,2 +7,0 @@\n-X\n-Y\n"))
     out.append(mk({b"f": F(body)}, b"--- a/f\n+++ b/f\n@@ -2,2 +1,0 @@\n-b\n-c\n@@ -6,0 +5,2 @@\n+n1\n+n2\n@@ -7 +6 @@\n-NOPE\n+G\n"))
+    # names with spaces, a quote and a backslash: the reject must name the same file when it is read back (seeded C13-i:
+    # spaces written unquoted, so "docs dir/read me.txt.rej" read back as a patch for "docs")
+    out.append(mk({b"docs dir/read me.txt": F(body), b'we"ird\\name': F(body)},
+                  b'--- "a/docs dir/read me.txt"\n+++ "b/docs dir/read me.txt"\n@@ -1,2 +1,2 @@\n a\n-X\n+B\n'
+                  b'--- "a/we\\"ird\\\\name"\n+++ "b/we\\"ird\\\\name"\n@@ -1,2 +1,2 @@\n a\n-X\n+B\n'))
     # reversed entry, -p0, quoted name
     out.append(mk({b"f": F(body)}, b"--- f\n+++ f\n@@ -1,2 +1,2 @@\n a\n-X\n+B\n", b"p.patch -p0 -R\n"))
     for w, c in list(out):
